@@ -289,6 +289,9 @@ Definition block_step (m : ms) (b : Z) (txs : list btx) (es : list ev) : Z * ms 
 (* the delay checker runs: every live tx whose conditions hold is reported safe now (C07 liveness) *)
 Definition delay_step (delay : Z) (m : ms) (es : list ev) : Z :=
   if negb (m_insync m) then (if negb (zlen es =? 0) then 161 else 0) else
+  (* C07 (safe reported once) / C11: the delay check only notifies about unconfirmed transactions - never about one
+     whose merkle proof is for a block of the chain (e.g. from a stale copy of the unconfirmed set after a restart) *)
+  if has_ev es (fun e => ((e_kind e =? 1) || (e_kind e =? 2)) && mem (e_proof e) (m_chain m)) then 127 else
   if existsb (fun t =>
        mem t (m_vnow m) && negb (mem t (m_conflicted m)) && negb (mem t (m_unsafe m)) &&
        negb (mem t (m_safe m)) &&
